@@ -93,3 +93,16 @@ Definition pytest_verdict (r : run_result) : option verdict :=
                              else if anything_ran st then V_passed else V_skipped)
   | R_base _ | R_need _ => None
   end.
+
+(* ---------- one collected doctest as each front end reports it ---------- *)
+Inductive report := Rep_omitted | Rep_verdict (v : verdict) | Rep_escaped.
+
+(* native `all`: force-disabled doctests are not run at all *)
+Definition native_item (disabled : bool) (r : run_result) : report :=
+  if disabled then Rep_omitted
+  else match native_verdict r with Some v => Rep_verdict v | None => Rep_escaped end.
+
+(* pytest: force-disabled doctests (is_disabled(pytest=True)) are reported skipped *)
+Definition pytest_item (disabled_pytest : bool) (r : run_result) : report :=
+  if disabled_pytest then Rep_verdict V_skipped
+  else match pytest_verdict r with Some v => Rep_verdict v | None => Rep_escaped end.
